@@ -199,12 +199,28 @@ func (e *fnEnc) call(c *blockCtx, in ssa.Instruction, cc *ssa.CallCommon) []Term
 	if res, ok := e.stdlibModel(c, in, name, args, cc); ok {
 		return res
 	}
-	// function-valued parameter with a declared contract: "callsite fn contract <name>"
-	if name == "" {
+	// call-site specific contract: "callsite <label> contract <name>" where label is
+	// the function-valued variable, "dynamic#k" (k-th dynamic call) or "<callee>#k"
+	{
+		label := ""
+		if name == "" {
+			label = valLabel(cc.Value)
+		}
+		dyn := fmt.Sprintf("dynamic#%d", e.dynOrdinal(in))
+		static := ""
+		if name != "" {
+			static = fmt.Sprintf("%s#%d", shortCallee(name), e.callOrdinal(in, name))
+		}
 		for _, cl := range e.ctr.Get("callsite") {
 			f := strings.Fields(cl.Text)
-			if len(f) == 3 && f[1] == "contract" && f[0] == valLabel(cc.Value) {
-				name = qualifyFuncName(e.pkg, f[2])
+			if len(f) == 3 && f[1] == "contract" && (f[0] == label && name == "" || f[0] == dyn && name == "" || f[0] == static && name != "") {
+				name = qualifyFuncName(e.pkg, e.eng.expandAlias(e.pkg, f[2]))
+				if ctr := e.eng.contracts[name]; ctr != nil {
+					res := e.applyContract(c, in, name, ctr, args, argTypes, cc)
+					e.alwaysObligations(c, in)
+					return res
+				}
+				e.fail("callsite contract %s not found", name)
 			}
 		}
 	}
@@ -328,7 +344,10 @@ func (e *fnEnc) applyContract(c *blockCtx, in ssa.Instruction, name string, ctr 
 		}
 	}
 	if len(names) != len(args) {
-		e.fail("call %s: %d args for %d params", name, len(args), len(names))
+		names = nil
+		for i := range args {
+			names = append(names, fmt.Sprintf("arg%d", i))
+		}
 	}
 	vars := map[string]SVal{}
 	for i, n := range names {
@@ -438,6 +457,12 @@ func (e *fnEnc) applyAssigns(c *blockCtx, ctr *FuncContract, env *specEnv) {
 				e.heapSet(c.st, comp, store(arr, slBase(v.t), e.freshConst("havoc.elems", ArrayOf(SInt, es))))
 			}
 		default:
+			if gt, ok := e.eng.ghostVars[txt]; ok {
+				srt, _ := e.specSort(env.pkg, gt)
+				e.heapSet(c.st, "Ghost.var."+txt, e.freshConst("ghost."+txt, srt))
+				e.ghostTouched = true
+				continue
+			}
 			// a single location x.f (or map m, box *p)
 			ex, err := parseExpr(txt)
 			if err != nil {
@@ -868,6 +893,10 @@ func (e *fnEnc) assignsTargets() (map[string][]Term, bool) {
 			out[dc] = append(out[dc], v.t)
 			out[vc] = append(out[vc], v.t)
 		default:
+			if _, ok := e.eng.ghostVars[txt]; ok {
+				out["Ghost.var."+txt] = append(out["Ghost.var."+txt], T(SInt, "*"))
+				continue
+			}
 			ex, err := parseExpr(txt)
 			if err != nil {
 				e.fail("assigns %s: %v", txt, err)
@@ -907,7 +936,7 @@ func (e *fnEnc) frameGoals(st *state, rname string) (goals map[string]Term, ok b
 	}
 	var comps []string
 	for k := range st.m {
-		if k != "!epoch" && !strings.HasPrefix(k, "Iter.") {
+		if k != "!epoch" && !strings.HasPrefix(k, "Iter.") && !strings.HasPrefix(k, "Ghost.") {
 			comps = append(comps, k)
 		}
 	}
@@ -1110,4 +1139,47 @@ func assignTexts(c *FuncContract) []string {
 		out = append(out, cl.Text)
 	}
 	return out
+}
+
+// dynOrdinal numbers dynamic calls (calls through a function value) in source order.
+func (e *fnEnc) dynOrdinal(in ssa.Instruction) int {
+	n := 0
+	for _, b := range e.fn.Blocks {
+		for _, i2 := range b.Instrs {
+			ci, ok := i2.(ssa.CallInstruction)
+			if !ok || i2 == in {
+				continue
+			}
+			cc := ci.Common()
+			if cc.IsInvoke() || cc.StaticCallee() != nil {
+				continue
+			}
+			if _, isB := cc.Value.(*ssa.Builtin); isB {
+				continue
+			}
+			if i2.Pos() < in.Pos() {
+				n++
+			}
+		}
+	}
+	return n
+}
+
+// alwaysObligations: `always E` clauses are checked after every call that may
+// have changed the ghost state (and at exit).
+func (e *fnEnc) alwaysObligations(c *blockCtx, in ssa.Instruction) {
+	if !e.ghostTouched {
+		return
+	}
+	e.ghostTouched = false
+	cls := e.ctr.Get("always")
+	if len(cls) == 0 {
+		return
+	}
+	e.alwaysCount++
+	env := e.envAt(c.b, e.curIdx+1, c.st)
+	for i, cl := range cls {
+		nm, _ := e.calleeName(callCommon(in))
+		e.obligation("always", fmt.Sprintf("%s:after %s#%d", clauseLabel(cl, i), shortCallee(nm), e.alwaysCount), c.reach, e.evalBool(cl.E, env), cl.Text, e.posOf(in), false)
+	}
 }
